@@ -10,7 +10,7 @@ import subprocess
 import sys
 
 ROOT = os.path.dirname(os.path.dirname(os.path.abspath(__file__)))
-WT = "/tmp/wt/verify"
+WT = os.environ.get("VERIF_VERIFY_WT", "/tmp/wt/verify")
 
 
 def sh(cmd, cwd=None, timeout=3600):
@@ -27,7 +27,7 @@ def run_demo(d, include_dir, chai_bin):
         rc, out = sh("%s %s" % (chai_bin, os.path.join(d, "demo.chai")), timeout=300)
         return rc, out[-1500:]
     if os.path.exists(os.path.join(d, "demo.cpp")):
-        exe = "/tmp/wt/verify_demo_bin"
+        exe = WT + "_demo_bin"
         rc, out = sh("g++ -std=c++20 -O0 -w -I%s %s -o %s -pthread -ldl" % (include_dir, os.path.join(d, "demo.cpp"), exe), timeout=1200)
         if rc:
             return 999, "demo does not compile: " + out[-800:]
